@@ -9,14 +9,14 @@
  4. corpus, mutated corpus and token soup through the differential comparison."""
 import json
 
-from . import common, gen_mutate
+from . import common, gen_mutate, gen_syntax
 from .common import HELD, VIOLATED, INCONCLUSIVE
 
 PROP = "C14"
 
 MAIN = list("abefiux_01289 \t\n\r(){}[]<>|&^!+-*/%:;.,=\"'\\#@") + ["é"]
 LITERAL = list("01xb_iu8 ")
-QUOTE = list("'\"\\nxu{}41 \n")
+QUOTE = list("'\"\\nxu{}41 \n\t\x07")
 
 PUNCT = {"(": "ParenLeft", ")": "ParenRight", "{": "BraceLeft", "}": "BraceRight", "[": "BracketLeft", "]": "BracketRight",
          "<": "AngleLeft", ">": "AngleRight", "|": "Pipe", "&": "Ampersand", "^": "Caret", "!": "Exclamation",
@@ -38,7 +38,8 @@ def underscores(rng, digits):
 
 
 def gen_int(rng):
-    v = rng.choice([0, 1, 7, 255, 256, 65535, 2 ** 32, 2 ** 64 - 1, 2 ** 127, 2 ** 128 - 1, rng.randrange(0, 1 << rng.randrange(1, 129))])
+    v = rng.choice([0, 1, 7, 255, 256, 65535, 2 ** 32, 2 ** 64 - 1, 2 ** 127, 2 ** 128 - 1, rng.randrange(0, 1 << rng.randrange(1, 129)),
+                    rng.choice(gen_syntax.BOUNDARY_INTS)])
     form = rng.choice(["dec", "dec", "hex", "HEX", "bin"])
     if form == "dec":
         text = underscores(rng, str(v))
